@@ -66,6 +66,8 @@ func runC15(c *Ctx) {
 	ruleBufGrowByAppend(c, pp, "C15.grow")
 	ruleEveryElement(c, pd, "C15.every")
 	ruleEveryElement(c, pp, "C15.every")
+	ruleLastIndex(c, pd, "C15.lastindex")
+	ruleLastIndex(c, pp, "C15.lastindex")
 	// ---- C15.pairs
 	rule := "C15.pairs"
 	c.R.Rule(rule, "the codec methods (EncodeColumn / WriteColumn / DecodeColumn) that are declared in different files in the default and in the purego configuration are paired by (type, method): every variant method has its sibling (ColRawOf exists only in the default build and is exempt), and both configurations type-check")
